@@ -48,3 +48,50 @@ pub fn vschedule_wake(_at: u64, _waker: &Waker) {}
 pub fn set_now(t: u64) {
     unsafe { VNOW = t }
 }
+
+// ---- PDU loop slot inspection (uses the cfg(ethercrab_verif) hooks in pdu_loop) ---------------
+use crate::pdu_loop::{VerifFrameElement as FrameElement, VerifFrameState as FrameState};
+
+#[derive(Clone, Copy, PartialEq, Debug)]
+pub struct Slot {
+    pub state: FrameState,
+    pub first_pdu: u16,
+    pub payload_len: usize,
+    pub slot_index: u8,
+}
+
+pub fn slot(pdu_loop: &crate::PduLoop<'_>, idx: usize) -> Slot {
+    let f = pdu_loop.verif_storage_ref().frame_at_index(idx);
+    let (state, first_pdu, payload_len, slot_index) = unsafe { FrameElement::verif_inspect(f) };
+    Slot { state, first_pdu, payload_len, slot_index }
+}
+
+pub fn forge(pdu_loop: &crate::PduLoop<'_>, idx: usize, s: Slot) {
+    let f = pdu_loop.verif_storage_ref().frame_at_index(idx);
+    unsafe { FrameElement::verif_forge(f, s.state, s.first_pdu, s.payload_len, s.slot_index) }
+}
+
+/// Byte `i` of slot `idx`'s Ethernet frame buffer.
+pub fn slot_byte(pdu_loop: &crate::PduLoop<'_>, idx: usize, i: usize) -> u8 {
+    let f = pdu_loop.verif_storage_ref().frame_at_index(idx);
+    unsafe { *FrameElement::verif_buf_ptr(f).add(i) }
+}
+
+pub fn set_slot_byte(pdu_loop: &crate::PduLoop<'_>, idx: usize, i: usize, v: u8) {
+    let f = pdu_loop.verif_storage_ref().frame_at_index(idx);
+    unsafe { *FrameElement::verif_buf_ptr(f).add(i) = v }
+}
+
+#[cfg(kani)]
+pub fn any_state() -> FrameState {
+    match kani::any::<u8>() % 8 {
+        0 => FrameState::None,
+        1 => FrameState::Created,
+        2 => FrameState::Sendable,
+        3 => FrameState::Sending,
+        4 => FrameState::Sent,
+        5 => FrameState::RxBusy,
+        6 => FrameState::RxDone,
+        _ => FrameState::RxProcessing,
+    }
+}
